@@ -1,4 +1,5 @@
 """C13 — AtomicBaseTime snapshots are never torn: memory-ordering floors and the seqlock protocol shape."""
+import re
 from .util import *  # noqa: F401,F403
 from .abt import ABT
 from engine.woodlint.db import Pos, as_relation, show
@@ -103,6 +104,14 @@ def r13_2(cx):
     up, st = ups[0], stores[0]
     is_v = _v_of(m, fn)
     idx = m.slot_index_expr(up.arg(0))
+    # the protocol needs a slot readers are *not* looking at: the array of copies has at least two entries
+    sf = [f for f in m.adt['variants'][0]['fields'] if 'BaseTime' in str(f.get('ty', '')) and '[' in str(f.get('ty', ''))]
+    nslots = None
+    if len(sf) == 1:
+        mm = re.search(r';\s*(\d+)\s*\]', str(sf[0]['ty']))
+        nslots = int(mm.group(1)) if mm else None
+    cx.check(nslots is not None and nslots >= 2, 'two-slots', None, '%s:%s' % (m.adt['file'], m.adt['line']), 'snapshots: [BaseTime; %s]' % nslots,
+             fail_detail='the writer has no spare copy to write into (snapshots has %s entries): it overwrites the copy readers are validating' % nslots)
     cx.check(idx is not None and m.is_mod_len(idx, is_v), 'slot-index', fn, up.loc(),
              'slot written is snapshots[(load(sequence)+1) %% len]: %s' % show(up.arg(0)),
              fail_detail='the slot written is not indexed by (sequence+1) %% len: %s' % show(up.arg(0)))
